@@ -35,11 +35,29 @@ fn try_restore_pkg(text: &str) -> (String, String) {
     }
 }
 
-fn line(out: &mut Vec<String>, pk: usize, kind: &str, pos: usize, arg: &str, trunc: bool, res: (String, String), orig: &str) {
+/// SHA-256 (hex) over the JSON of a snapshot: the specification's H(content)
+pub fn h_of(snapshot: &PriceLevelSnapshot) -> String {
+    use sha2::{Digest, Sha256};
+    let payload = serde_json::to_vec(snapshot).unwrap_or_default();
+    let mut hasher = Sha256::new();
+    hasher.update(payload);
+    format!("{:x}", hasher.finalize())
+}
+
+/// what the specification needs to know about a (possibly faulted) package text:
+/// does it parse as a package at all, its version, its stored checksum, H of its content
+fn facts(text: &[u8]) -> Value {
+    match std::panic::catch_unwind(|| serde_json::from_slice::<PriceLevelSnapshotPackage>(text)) {
+        Ok(Ok(p)) => json!({"parsed": true, "ver": p.version, "sum": p.checksum, "hsum": h_of(&p.snapshot)}),
+        _ => json!({"parsed": false, "ver": 0, "sum": "", "hsum": ""}),
+    }
+}
+
+fn line(out: &mut Vec<String>, pk: usize, kind: &str, pos: usize, arg: &str, trunc: bool, res: (String, String), orig: &str, text: &[u8]) {
     // the digest is only written when it differs (keeps the trace small); "same" is a string
     // comparison result the specification re-checks on the lines that carry both digests
     let same = res.0 == "ok" && res.1 == orig;
-    let mut v = json!({"k": "f", "pk": pk, "f": kind, "pos": pos, "arg": arg, "trunc": trunc, "res": res.0, "same": same});
+    let mut v = json!({"k": "f", "pk": pk, "f": kind, "pos": pos, "arg": arg, "trunc": trunc, "res": res.0, "same": same, "pkg": facts(text)});
     if res.0 == "ok" && !same {
         v["got"] = json!(res.1);
     }
@@ -70,6 +88,12 @@ fn structural(pkg: &Value) -> Vec<(String, Value)> {
     let cs = pkg["checksum"].as_str().unwrap_or("").to_string();
     q["checksum"] = json!(cs.to_uppercase());
     v.push(("checksum-upper".into(), q));
+    for (name, val) in [("checksum-empty", String::new()), ("checksum-prefix", cs.chars().take(8).collect::<String>()),
+                        ("checksum-short", cs.chars().take(cs.len().saturating_sub(1)).collect::<String>()), ("checksum-ext", format!("{cs}0"))] {
+        let mut q = pkg.clone();
+        q["checksum"] = json!(val);
+        v.push((name.into(), q));
+    }
     for f in ["visible_quantity", "hidden_quantity", "order_count"] {
         v.push((format!("agg-{f}"), bump(pkg, &["snapshot", f])));
     }
@@ -146,7 +170,7 @@ pub fn run(sc: &Value, pk: usize) -> Vec<String> {
             let mut b = bytes.clone();
             b[pos] = s;
             if let Ok(t) = String::from_utf8(b) {
-                line(&mut out, pk, "sub", pos, &format!("{s}"), false, try_restore(&t), &orig);
+                line(&mut out, pk, "sub", pos, &format!("{s}"), false, try_restore(&t), &orig, t.as_bytes());
             } else {
                 // not valid UTF-8: the text API cannot even receive it; the byte-slice entry point is serde's
                 let mut b2 = bytes.clone();
@@ -157,26 +181,26 @@ pub fn run(sc: &Value, pk: usize) -> Vec<String> {
                     Ok(Err(_)) => ("err".to_string(), String::new()),
                     Err(_) => ("panic".to_string(), String::new()),
                 };
-                line(&mut out, pk, "subraw", pos, &format!("{s}"), false, res, &orig);
+                line(&mut out, pk, "subraw", pos, &format!("{s}"), false, res, &orig, &b2);
             }
         }
         let mut b = bytes.clone();
         b.remove(pos);
         if let Ok(t) = String::from_utf8(b) {
-            line(&mut out, pk, "del", pos, "", false, try_restore(&t), &orig);
+            line(&mut out, pk, "del", pos, "", false, try_restore(&t), &orig, t.as_bytes());
         }
         for s in [b'7', b',', b'}'] {
             let mut b = bytes.clone();
             b.insert(pos, s);
             if let Ok(t) = String::from_utf8(b) {
-                line(&mut out, pk, "ins", pos, &format!("{s}"), false, try_restore(&t), &orig);
+                line(&mut out, pk, "ins", pos, &format!("{s}"), false, try_restore(&t), &orig, t.as_bytes());
             }
         }
     }
     // every truncation point (torn write): every proper prefix
     for cut in 0..bytes.len() {
         if let Ok(t) = std::str::from_utf8(&bytes[..cut]) {
-            line(&mut out, pk, "trunc", cut, "", true, try_restore(t), &orig);
+            line(&mut out, pk, "trunc", cut, "", true, try_restore(t), &orig, t.as_bytes());
         }
     }
     // structural edits, singly and in pairs, through both entry points
@@ -184,8 +208,8 @@ pub fn run(sc: &Value, pk: usize) -> Vec<String> {
         let singles = structural(&pkg);
         for (name, q) in &singles {
             let t = q.to_string();
-            line(&mut out, pk, "struct", 0, name, false, try_restore(&t), &orig);
-            line(&mut out, pk, "structpkg", 0, name, false, try_restore_pkg(&t), &orig);
+            line(&mut out, pk, "struct", 0, name, false, try_restore(&t), &orig, t.as_bytes());
+            line(&mut out, pk, "structpkg", 0, name, false, try_restore_pkg(&t), &orig, t.as_bytes());
         }
         let maxpairs = sc["pairs"].as_u64().unwrap_or(300) as usize;
         let mut np = 0;
@@ -195,14 +219,15 @@ pub fn run(sc: &Value, pk: usize) -> Vec<String> {
                     break 'outer;
                 }
                 np += 1;
-                line(&mut out, pk, "struct2", 0, &format!("{n1}+{n2}"), false, try_restore(&q2.to_string()), &orig);
+                let t2 = q2.to_string();
+                line(&mut out, pk, "struct2", 0, &format!("{n1}+{n2}"), false, try_restore(&t2), &orig, t2.as_bytes());
             }
         }
         // content-preserving re-encodings must still restore to the same content
         let pretty = serde_json::to_string_pretty(&pkg).unwrap_or_default();
-        line(&mut out, pk, "same-pretty", 0, "", false, try_restore(&pretty), &orig);
+        line(&mut out, pk, "same-pretty", 0, "", false, try_restore(&pretty), &orig, pretty.as_bytes());
         let alias = text.replace("\"BUY\"", "\"Buy\"").replace("\"SELL\"", "\"sell\"").replace("\"GTC\"", "\"gtc\"");
-        line(&mut out, pk, "same-alias", 0, "", false, try_restore(&alias), &orig);
+        line(&mut out, pk, "same-alias", 0, "", false, try_restore(&alias), &orig, alias.as_bytes());
     }
     out
 }
